@@ -137,6 +137,11 @@ def run_property(ctx, prop):
             got = list(r.fn(ctx))
         except Anchor as a:
             got = [anchor_missing(r.rid, a.what)]
+        except Exception as ex:  # an idiom the rule's code does not handle: fail closed, say where
+            import traceback
+
+            tb = traceback.extract_tb(ex.__traceback__)[-1]
+            got = [undecided(r.rid, "%s:internal" % r.rid, "-", "the rule could not be evaluated on this tree (%s: %s at %s:%d): an idiom outside what the analysis models" % (type(ex).__name__, str(ex)[:160], os.path.basename(tb.filename), tb.lineno))]
         n = len([i for i in got if not i.anchor])
         if n < r.floor and not any(i.anchor for i in got):
             got.append(
